@@ -97,6 +97,12 @@ def run(tier, seed):
     # runs stopped at step k and continued, with a worker's / facility's own absence list edited at the stop; second runs after such edits
     col.merge(stepcheck.explore(stepcheck.resumed_edit_items(("worker-absence-append-3",), ks=(1, 2, 3)) + stepcheck.resumed_edit_items(("worker-absence-inplace",), ks=(1,))
                                 + stepcheck.edited_items(names=("worker-absence-inplace", "worker-absence-move", "worker-absence-append-3", "facility-absence-inplace")), MONS, 0, 0, seed=seed))
+    # backward runs (inner run observed) with project-wide absence steps and both values of the automatic-task flag; forward and backward results
+    # (logs reversed) whose absence steps - some of them named beyond the end of the run - are deleted afterwards
+    bsel = [(sp, o) for sp, o in its if not sp.get("order")][:: (6 if tier == "quick" else 2)]
+    bi = [(sp, dict(o, backward=True, rev=False, absence=list(ab), auto_abs=aa, max_time=o["max_time"] + 6)) for sp, o in bsel for ab in ((1,), (0, 2), (2, 3)) for aa in (False, True)]
+    bi += [(sp, dict(o, backward=bk, rev=True, absence=list(ab), post_remove=True, max_time=o["max_time"] + 6)) for sp, o in bsel for ab in ((1,), (2, 3, 11, 12), (0, 2, 9), (1, 30)) for bk in (False, True)]
+    col.merge(stepcheck.explore(bi, MONS, 0, 0, seed=seed))
     col.merge(stepcheck.explore(F.scale_items(("TSLACK",)), MONS, 0, 0, seed=seed))  # medium-sized models (10-14 tasks / workers / machines), long absence lists
     meta = {
         "level": "model_checking",
